@@ -514,3 +514,32 @@ func frameReanchored(fr *Frame) bool {
 	la := localAligned[fr.fn]
 	return la != nil && la.al != nil
 }
+
+// counterBoundInvariant: for a loop that was a range loop when the contracts were written and is now
+// "for k := 0; k < B; k++", the clause "0 <= k && k <= B". A range loop's hidden index is within bounds by
+// construction of its lowering; the counter loop needs the same fact as an invariant. It is PROVED like any other
+// invariant (obligations ...init.autoinv / ...step.autoinv, which every check counts as claimed), not assumed.
+func counterBoundInvariant(fn *ssa.Function, li *loopInfo) *Clause {
+	fs, ok := li.stmt.(*ast.ForStmt)
+	if !ok || fs.Cond == nil || counterOf(fn, li) == nil {
+		return nil
+	}
+	as := fs.Init.(*ast.AssignStmt)
+	if lit, ok := as.Rhs[0].(*ast.BasicLit); !ok || lit.Value != "0" {
+		return nil
+	}
+	be, ok := fs.Cond.(*ast.BinaryExpr)
+	if !ok || be.Op != token.LSS {
+		return nil
+	}
+	id, ok := be.X.(*ast.Ident)
+	if !ok || id.Name != as.Lhs[0].(*ast.Ident).Name {
+		return nil
+	}
+	txt := "0 <= " + id.Name + " && " + id.Name + " <= " + nodeText(fn.Prog.Fset, be.Y)
+	e, err := parseExpr(txt)
+	if err != nil {
+		return nil
+	}
+	return &Clause{Kind: "invariant", Text: txt + "  (synthesised: the loop was a range loop when the contract was written)", Expr: e, Label: "autoinv"}
+}
